@@ -213,6 +213,9 @@ func c04Body(x *explore.Ctx, state string, readerIsServer, deflate bool, chunkin
 	if openAfter {
 		tail = append(tail, wsref.Frame{Fin: true, Opcode: wsref.OpCont, Masked: masked, Key: key, Payload: tailCont})
 	}
+	// a control frame and a message follow in the same stream: after a violation neither may be
+	// handled / delivered
+	tail = append(tail, wsref.Frame{Fin: true, Opcode: wsref.OpPing, Masked: masked, Key: key, Payload: []byte("late")})
 	tail = append(tail, wsref.Frame{Fin: true, Opcode: wsref.OpText, Masked: masked, Key: key, Payload: []byte("AFTER")})
 	stream = append(stream, wsref.EncodeAll(tail)...)
 
